@@ -183,6 +183,19 @@ def build(ctx):
         add("loop list", script(m0, [("for", "float", "t", ("vals", [N("0.5"), N("2")], "sq"), [st("L", [], [("k", V("t")), ("a", a)])])]))
     for sc in tdm_scripts(shapes):
         add("tdm", sc)
+    # arrays that coincide under a coarser notion of equality: same numbers in another shape, same memory image in
+    # another element type, equal arrays under two names - in one program, in both orders, in every pairing of positions
+    coll = {"A": A.DECL_BY_NAME["A"],
+            "R": ("arr", "float", "R", None, [[N("1.5"), N("2.5"), U("-", N("3.0")), N("4.25")]]),
+            "C4": ("arr", "float", "C4", (4, 1), [[N("1.5")], [N("2.5")], [U("-", N("3.0"))], [N("4.25")]]),
+            "A2": ("arr", "float", "A2", None, [[N("1.5"), N("2.5")], [U("-", N("3.0")), N("4.25")]]),
+            "Z": ("arr", "int", "Z", None, [[N("0"), N("0")]]), "Zf": ("arr", "float", "Zf", None, [[N("0.0"), N("0.0")]]),
+            "Zc": ("arr", "complex", "Zc", (1, 1), [[N("0j")]]), "Z1": ("arr", "int", "Z1", (2, 1), [[N("0")], [N("0")]])}
+    for x, y in itertools.permutations(coll, 2):
+        ds = [coll[x], coll[y]]
+        add("coinciding arrays", dict(m0, items=ds + [st("G", [V(x), V(y)], [], [N("0"), N("1")], "sq")]))
+        add("coinciding arrays", dict(m0, items=ds + [st("G", [V(x)], [("k", V(y))])]))
+        add("coinciding arrays", dict(m0, items=ds + [st("G", [V(x)], []), st("H", [], [("k", V(y)), ("l", V(x))], [N("1")])]))
     # value sweep: floats at and around values a serialiser might prettify or round, in every position
     for t in A.near_special_floats():
         for v in (N(t), U("-", N(t))):
@@ -233,7 +246,7 @@ def run(ctx):
     cov = {"evaluations": len(scripts), "distinct_nontrivial": len(distinct),
            "rule": "valid scripts from the shared alphabet (%d argument shapes incl. every print form of ints/floats/complex, booleans, strings, variables, array elements, arrays, parameter expressions over overlapping and look-alike names, register expressions; "
                    "%d list-valued keyword shapes; %d mode forms; %d metadata variants): every single argument x metadata, every ordered pair as 2 positional / positional+keyword / 2 keywords / 2 statements, lists x shapes, list pairs, mode forms x shapes, "
-                   "loops, tdm programs with p-arrays, %d floats at and around pi multiples / e / 1 / 1/3 / sqrt 2 / powers of ten in every position, and every single-argument script also through the file interface (dump to / load from one working file per worker); thorough adds triples, options x pairs and 3-statement scripts. Each is loaded, serialised and re-loaded until the text repeats (cap %d generations). "
+                   "loops, tdm programs with p-arrays, pairs of arrays that coincide in numbers / memory image but differ in shape or element type, %d floats at and around pi multiples / e / 1 / 1/3 / sqrt 2 / powers of ten in every position, and every single-argument script also through the file interface (dump to / load from one working file per worker); thorough adds triples, options x pairs and 3-statement scripts. Each is loaded, serialised and re-loaded until the text repeats (cap %d generations). "
                    "non-trivial = script loads and has >= 1 operation with an argument; distinct by rendered text" % (len(A.ARG_SHAPES), len(A.KW_LISTS) + len(A.KW_LISTS_T), len(A.MODE_FORMS), len(A.METAS), len(A.near_special_floats()), GEN_CAP),
            "samples": [_text(s) for s in common.sample(scripts, 4)], "exhaustive": True, "by_family": dict(fam), **dict(stats)}
     return {"coverage": cov, "violations": Vs.records(),
